@@ -87,6 +87,38 @@ Section Run.
         destruct (IH s1 ds1 ended st' Er j ltac:(lia)) as (s & Hs).
         cbn [run_list firstn]. rewrite Es, Ed, Hs. eauto.
   Qed.
+  (* one more step *)
+  Lemma run_list_snoc : forall n st ds st', run_list n st = Some (ds, false, st') ->
+    run_list (S n) st =
+      match step st' with
+      | None => None
+      | Some (d, st'') => if d =? -1 then Some (ds, true, st') else Some (ds ++ [d], false, st'')
+      end.
+  Proof.
+    induction n as [|n IH]; intros st ds st' H.
+    - cbn in H. inversion H; subst. cbn [run_list]. destruct (step st') as [[d s]|]; [|reflexivity].
+      destruct (d =? -1); reflexivity.
+    - remember (S n) as m. cbn [run_list]. subst m. cbn [run_list] in H.
+      destruct (step st) as [[d s1]|] eqn:Es; [|discriminate].
+      destruct (d =? -1) eqn:Ed; [discriminate|].
+      destruct (run_list n s1) as [[[ds1 e1] s2]|] eqn:Er; [|discriminate].
+      inversion H; subst. rewrite (IH s1 ds1 st' Er).
+      destruct (step st') as [[d2 s3]|]; [|reflexivity]. destruct (d2 =? -1); reflexivity.
+  Qed.
+
+  (* the sequence ends after exactly n digits iff the n digits are exact *)
+  Lemma run_list_end_iff : forall n c P st ds st', I c P st -> run_list n st = Some (ds, false, st') ->
+    (E (c + n) (val_from P ds) <-> option_map fst (run_list (S n) st) = Some (ds, true)).
+  Proof.
+    intros n c P st ds st' HI Hr.
+    destruct (run_list_spec n c P st HI) as (ds0 & en0 & st0 & Hr0 & _ & Hfull & _ & _ & _ & _ & Hfin).
+    rewrite Hr in Hr0. inversion Hr0; subst ds0 en0 st0. rewrite (Hfull eq_refl) in Hfin.
+    rewrite (run_list_snoc n st ds st' Hr).
+    destruct (step_inv _ _ _ Hfin) as (dg & s2 & Hs & Hc). rewrite Hs.
+    destruct Hc as [(-> & HE)|(Hdg & _ & HnE)].
+    - cbn. split; auto.
+    - destruct (Z.eqb_spec dg (-1)); [lia|]. cbn. split; [tauto|]. intros H. inversion H.
+  Qed.
 End Run.
 
 Arguments run_list {St} step k st.
